@@ -32,7 +32,7 @@ class Mark:
                         copy = set[0:i]
                     copy.append(self)
                     placed = True
-                if copy:
+                if copy is not None:
                     copy.append(other)
         if copy is None:
             copy = set[:]
